@@ -20,3 +20,14 @@ package ios
 //vc:  requires[C11] !isCompareRun
 //vc:func (*State).extendReload
 //vc:  requires[C11] !isCompareRun
+
+//vc:func (*State).checkDeviceName
+//vc:  set nameChecked = true
+//vc:  set checkedName = name
+//vc:  ensures[C06] @reportedNameEqualsExpected name == strings.TrimSuffix(strings.TrimSpace(lastOutput), "#")
+//vc:  ensures[C06] nameChecked && checkedName == name
+
+//vc:func (*State).LoadDevice
+//vc:  requires[C06] !nameChecked
+//vc:  ensures[C06] @hostnameVerified err == nil ==> nameChecked && checkedName == path.Base(spocFile)
+//vc:  ensures[C06] @missingBannerRecorded err == nil ==> (markerMissing ==> len(s.State.errUnmanaged) > 0)
